@@ -1,5 +1,6 @@
 import Proofs.OSet
 import Proofs.OSetPtr
+import Proofs.OSetReplace
 import Proofs.OSetShape
 
 /-!
@@ -340,4 +341,76 @@ example : (Pyx.OSetPtr.reversedRem (fun k => k == 8) (Pyx.OSetPtr.runP [.add 9, 
       (Pyx.OSetPtr.runP [.add 9, .add 8, .add 7]) ((Pyx.OSetPtr.runP [.add 9, .add 8, .add 7]).prev 0)).1 =
       (Pyx.OSetPtr.absRunP [.add 9, .add 8, .add 7]).reverse :=
   (reverse_iter_remove_keeps_repr _ _ _ (ptr_reachable [.add 9, .add 8, .add 7]).1).1
+end PyxProps.C17
+
+/-! ==========================================================================================================
+  "REPLACE the visited element": a loop body that discards the visited element AND adds a fresh one  — appended section
+  ========================================================================================================== -/
+namespace PyxProps.C17
+open Pyx.OSetPtr
+
+/-- FORWARD (`for x in s: if p x and fewer than limit replaced: s.discard(x); s.add(fresh + i)`), at pointer level: the
+    generator holds the visited cell and reads its `next` after the body ran; the body unlinks that cell and links a fresh cell
+    before the sentinel.  In every represented state, for EVERY predicate that is false on the fresh elements (the harness's
+    `x in args and x < 1000`), when the fresh elements are not in the set and the fuel is `> 2·|L|`:
+    * the visit list is `L` — every original element exactly once, in order — followed by fresh elements: ALL the fresh ones
+      (they were linked behind the iterator), or NONE when the walk ended right after its first replacement (`lostFresh`: the
+      first replaced element was the last one of the set — its stale `next` is the sentinel);
+    * restricted to the elements present at the start the visit list is exactly `L`;
+    * the store left behind is represented again and denotes the kept elements (old order) followed by the fresh ones. -/
+theorem iter_replace_current (p : Nat → Bool) (fresh limit : Nat) (hp : ∀ j, p (fresh + j) = false)
+    (s : Store) (L : List Nat) (h : Repr s L) (hfresh : ∀ j, fresh + j ∉ L) (f : Nat) (hf : 2 * L.length < f) :
+    (iterReplace p fresh limit f s (s.next 0) 0).1 =
+      L ++ (if lostFresh p limit L 0 = true then [] else freshFrom fresh 0 (replacedCount p limit L 0)) ∧
+    Repr (iterReplace p fresh limit f s (s.next 0) 0).2 (keptBy p limit L 0 ++ freshFrom fresh 0 (replacedCount p limit L 0)) ∧
+    (iterReplace p fresh limit f s (s.next 0) 0).1.filter (fun x => decide (x ∈ L)) = L := by
+  obtain ⟨as, ha⟩ := h
+  exact reprA_iterReplace p fresh limit hp ha hfresh f hf
+
+/-- BACKWARD (`for x in reversed(s): …` with the same body): for ANY predicate, the visit list is exactly `L.reverse` — the
+    fresh cells are linked behind the iterator and never reached — and the store left behind is represented again: the kept
+    elements in their old order, then the fresh ones -/
+theorem reversed_replace_current (p : Nat → Bool) (fresh limit : Nat)
+    (s : Store) (L : List Nat) (h : Repr s L) (hfresh : ∀ j, fresh + j ∉ L) (f : Nat) (hf : L.length < f) :
+    (reversedReplace p fresh limit f s (s.prev 0) 0).1 = L.reverse ∧
+    Repr (reversedReplace p fresh limit f s (s.prev 0) 0).2
+      ((keptBy p limit L.reverse 0).reverse ++ freshFrom fresh 0 (replacedCount p limit L.reverse 0)) := by
+  obtain ⟨as, ha⟩ := h
+  exact reprA_reversedReplace p fresh limit ha hfresh f hf
+
+/-- the pointer-level loops ARE the list-level loops (`absIterReplace` / `absReversedReplace` of PyxModel/OSetPtr.lean), step
+    by step and for every fuel and predicate: from a represented ring `pre ++ suf` (resp. `preRev.reverse ++ tail`) with the
+    iterator about to visit the first cell of `suf` (the last of `preRev.reverse`) -/
+theorem replace_loops_refine (p : Nat → Bool) (fresh limit f : Nat) (s : Store) (pre suf L : List Nat) (added : Nat)
+    (h : ReprA s (pre ++ suf) L) (hfresh : ∀ j, added ≤ j → fresh + j ∉ L) :
+    (iterReplace p fresh limit f s ((suf ++ [0]).head?.getD 0) added).1 =
+        (absIterReplace p fresh limit f (pre.map s.key) (suf.map s.key) added).1 ∧
+    Repr (iterReplace p fresh limit f s ((suf ++ [0]).head?.getD 0) added).2
+        (absIterReplace p fresh limit f (pre.map s.key) (suf.map s.key) added).2 :=
+  iterReplace_refines p fresh limit f s pre suf L added h hfresh
+
+/-! applied: the ring 9, 8, 7 (built by three pointer-level adds, `Repr` from `ptr_reachable`), fresh elements 1000, 1001, …,
+    at most 4 replacements.  Replacing 9 and 7: the walk visits 9 8 7 and then BOTH fresh elements; replacing only the last
+    element 7: its fresh replacement is not visited; backwards no fresh element is visited. -/
+def ring987 : Store := runP [.add 9, .add 8, .add 7]
+theorem ring987_repr : Repr ring987 [9, 8, 7] := (ptr_reachable [.add 9, .add 8, .add 7]).1
+example : (iterReplace (fun k => k == 9 || k == 7) 1000 4 7 ring987 (ring987.next 0) 0).1 =
+      [9, 8, 7] ++ (if lostFresh (fun k => k == 9 || k == 7) 4 [9, 8, 7] 0 = true then []
+                    else freshFrom 1000 0 (replacedCount (fun k => k == 9 || k == 7) 4 [9, 8, 7] 0)) ∧
+    (iterReplace (fun k => k == 9 || k == 7) 1000 4 7 ring987 (ring987.next 0) 0).1.filter (fun x => decide (x ∈ [9, 8, 7])) = [9, 8, 7] :=
+  let h := iter_replace_current (fun k => k == 9 || k == 7) 1000 4 (by intro j; simp; omega) ring987 [9, 8, 7] ring987_repr
+    (by intro j; simp; omega) 7 (by decide)
+  ⟨h.1, h.2.2⟩
+example : (iterReplace (fun k => k == 9 || k == 7) 1000 4 7 ring987 (ring987.next 0) 0).1 = [9, 8, 7, 1000, 1001] ∧
+    toList (iterReplace (fun k => k == 9 || k == 7) 1000 4 7 ring987 (ring987.next 0) 0).2 = [8, 1000, 1001] ∧
+    (iterReplace (fun k => k == 7) 1000 4 7 ring987 (ring987.next 0) 0).1 = [9, 8, 7] ∧
+    toList (iterReplace (fun k => k == 7) 1000 4 7 ring987 (ring987.next 0) 0).2 = [9, 8, 1000] ∧
+    lostFresh (fun k => k == 7) 4 [9, 8, 7] 0 = true ∧
+    (reversedReplace (fun k => k == 9 || k == 7) 1000 4 4 ring987 (ring987.prev 0) 0).1 = [7, 8, 9] ∧
+    toList (reversedReplace (fun k => k == 9 || k == 7) 1000 4 4 ring987 (ring987.prev 0) 0).2 = [8, 1000, 1001] ∧
+    toListRev (reversedReplace (fun k => k == 9 || k == 7) 1000 1 4 ring987 (ring987.prev 0) 0).2 = [1000, 8, 9] := by decide
+example : (reversedReplace (fun k => k == 9 || k == 7) 1000 4 4 ring987 (ring987.prev 0) 0).1 = [9, 8, 7].reverse :=
+  (reversed_replace_current (fun k => k == 9 || k == 7) 1000 4 ring987 [9, 8, 7] ring987_repr (by intro j; simp; omega) 4
+    (by decide)).1
+
 end PyxProps.C17
